@@ -94,6 +94,8 @@ def spaces(tier, seed):
                       note="two relative phrases in one text and no RELATIVE_BASE (each earlier hit is itself relative), optionally followed by a timezone"))
     sp.append(Product("simplification-and-relative-autodetect", {"lang": LANGS, "sw": range(3), "ctx": [1], "r1": [0], "r2": [1], "join": [". "], "tz": [" EST"], "kind": ["simp", "rel"],
                                                                  "sel": ["auto"], "adl": [True], "base": [False]}))
+    sp.append(Product("two-dates-with-and-without-a-dropped-word", {"lang": LANGS, "d": range(4), "d2": [0, 1], "w": range(10), "order": [0, 1], "sel": ["lang"], "adl": [True, False], "base": [True]},
+                      note="two full dates next to each other (a chunk that only parses after splitting), once joined by a space and once by a word the translation drops; both texts searched in one case, in both orders, the first text once more at the end: every call well-formed, the repeated call equal to the first"))
     sp.append(Product("glued-punctuation", {"lang": LANGS, "i": range(6), "j": range(6), "glue": [",", "'", ".", "-", ":", "/", ";", ")(", "\u2019", ",,"],
                                             "sel": ["lang"], "adl": [True], "base": [True]},
                       note="two tokens joined by a punctuation mark without spaces"))
@@ -174,6 +176,16 @@ def text_of(sub, c):
             return None
         j = joiner or " "
         return dts[c["d"]] + j + words[c["w"]] + j + c["n"]
+    if sub == "two-dates-with-and-without-a-dropped-word":
+        info = vocab.locale_info(c["lang"])
+        words = [w for w in (info.get("skip") or []) if w.strip() and any(ch.isalpha() for ch in w)][:10]
+        dts = [x for x in (core8[:3] + ["15 " + core8[0]])]
+        if c["w"] >= len(words) or c["d"] >= len(dts):
+            return None
+        j = joiner or " "
+        first = dts[c["d"]] if any(ch.isdigit() for ch in dts[c["d"]]) else "10" + j + dts[c["d"]] + j + "2015"
+        second = ["5" + j + core8[0] + "," + j + "2016", "12" + j + core8[0] + j + "2014"][c["d2"]]
+        return first + j + words[c["w"]] + j + second if not c.get("_plain") else first + j + second
     if sub == "glued-punctuation":
         if c["i"] >= len(core8) or c["j"] >= len(core8):
             return None
@@ -229,6 +241,24 @@ def run_case(sub, c):
     kw = {"languages": langs, "add_detected_language": c["adl"]}
     if c["base"]:
         kw["settings"] = {"RELATIVE_BASE": BASE}
+    if sub == "two-dates-with-and-without-a-dropped-word":
+        plain = text_of(sub, dict(c, _plain=True))
+        seq = [plain, text, plain] if c["order"] == 0 else [text, plain, text]
+        outs = []
+        for t in seq:
+            o = api.outcome_of(search_dates, t, **kw)
+            if o[0] == "exc":
+                return "bad", True, {"cls": {"form": "exception", "exception": o[1], "site": o[3], "sub": sub}, "expected": "no exception",
+                                     "observed": o[1:], "detail": {"texts_in_order": seq, "failing_text": t, "kwargs": kw}}
+            prob = judge(t, o[1], c["adl"], langs)
+            if prob is not None:
+                return "bad", True, {"cls": {"form": "malformed", "problem": prob, "sub": sub}, "expected": "well-formed hits",
+                                     "observed": o[1], "detail": {"texts_in_order": seq, "failing_text": t, "kwargs": kw}}
+            outs.append(o[1])
+        if outs[0] != outs[2]:
+            return "bad", True, {"cls": {"form": "repeated search differs", "sub": sub}, "expected": outs[0], "observed": outs[2],
+                                 "detail": {"texts_in_order": seq, "kwargs": kw}}
+        return ("hits" if outs[0] or outs[1] else "none"), bool(outs[0] or outs[1]), None
     o = api.outcome_of(search_dates, text, **kw)
     if o[0] == "exc":
         return "bad", True, {"cls": {"form": "exception", "exception": o[1], "site": o[3]}, "expected": "no exception",
